@@ -48,6 +48,7 @@ def c14(ck, tier, seed):
                        "nodes and terminals) the retry succeeds")
     import checks
     checks.store_mc(ck, tier)
+    checks.slotalloc_mc(ck, tier)
     ck.assumptions += ["index backend only (capacity is exact there)", "reordering / add_vars under memory pressure abort the "
                        "process by design of their API (no error return): exercised separately when registered as findings"]
 
